@@ -1,4 +1,5 @@
 import SwiftMT.Fields.Simple
+import SwiftMT.Generated.Enums
 /-
 Registry of the modelled field types for the line-protocol driver: `run name content` gives what
 `T::parse(content)` followed by `to_swift_string()` and `serde_json::to_value` give on the real type `name`.
@@ -124,5 +125,18 @@ def run (name : String) (c : Text) : Option (Res (Text × J)) :=
     match registryPartial.find? (fun p => p.1 == name) with
     | some p => p.2 c
     | none => none
+
+/-- `E::parse_with_variant(content, letter)` for an option enum `E` (regenerated declarations, T3): the letter selects the
+variant, the variant's struct parser reads the content.  `none` = not decided by the model: the struct is not modelled
+(or the content is outside the exact region of an amount model), or no letter is given and the family has no letter-less
+member (the library then applies a content heuristic). -/
+def enumPwv (ename : String) (letter : Text) (c : Text) : Option (Res (Text × J)) :=
+  match Generated.Enums.enums.find? (fun e => e.name == ename) with
+  | none => none
+  | some e =>
+    if e.fallback then none
+    else match e.variants.find? (fun v => v.letter == letter) with
+      | some v => run v.structName c
+      | none => if letter.isEmpty then none else some .err
 
 end SwiftMT.Fields
